@@ -584,11 +584,58 @@ func (fx *FuncCtx) havocFamily(st *State, f famInst) {
 				q, lo.S, q, q, hi.S, row.S, q, old.S, q), SBool})
 		}
 	}
+	if !f.whole && !(len(f.vars) == 1 && f.cond.S == "true" && fx.unitStrideOK(f)) && len(f.vars) <= 2 {
+		// general family (strided, two-dimensional, conditional): a cell that is not a member keeps its
+		// value. The inner quantifier sits in the antecedent, so using the fact for a concrete cell
+		// means refuting membership of that cell (a skolemised, quantifier-free subgoal).
+		q := fx.freshName("q_f")
+		var bs, rng []string
+		body := f.index.S
+		cond := f.cond.S
+		los := make([]string, len(f.vars))
+		his := make([]string, len(f.vars))
+		for i := range f.vars {
+			los[i], his[i] = f.lo[i].S, f.hi[i].S
+		}
+		for i, v := range f.vars {
+			nv := fx.freshName("q_fk")
+			bs = append(bs, fmt.Sprintf("(%s Int)", nv))
+			body = replaceSym(body, v.S, nv)
+			cond = replaceSym(cond, v.S, nv)
+			for j := range los {
+				los[j] = replaceSym(los[j], v.S, nv)
+				his[j] = replaceSym(his[j], v.S, nv)
+			}
+			_ = i
+		}
+		for i := range f.vars {
+			nv := strings.TrimSuffix(strings.TrimPrefix(bs[i], "("), " Int)")
+			rng = append(rng, fmt.Sprintf("(<= %s %s) (< %s %s)", los[i], nv, nv, his[i]))
+		}
+		member := fmt.Sprintf("(and %s %s (= %s (+ %s %s)))", strings.Join(rng, " "), cond, q, f.sl.Off.S, body)
+		if len(bs) == 0 {
+			st.assume(Term{fmt.Sprintf("(forall ((%s Int)) (=> (not %s) (= (select %s %s) (select %s %s))))",
+				q, member, row.S, q, old.S, q), SBool})
+		} else {
+			st.assume(Term{fmt.Sprintf("(forall ((%s Int)) (=> (forall (%s) (not %s)) (= (select %s %s) (select %s %s))))",
+				q, strings.Join(bs, " "), member, row.S, q, old.S, q), SBool})
+		}
+	}
 	if k, ok := intInfo(f.sl.Elem); ok {
 		q := fx.freshName("q_r")
 		st.assume(Term{fmt.Sprintf("(forall ((%s Int)) %s)", q, k.rangeOf(Select(row, Term{q, SInt}, SInt)).S), SBool})
 	}
 	st.heap[name] = fx.define(name, Store(m, f.sl.Rid, row))
+}
+
+// unitStrideOK: the family is an interval of consecutive cells (handled by the interval fact above).
+func (fx *FuncCtx) unitStrideOK(f famInst) bool {
+	if len(f.vars) != 1 {
+		return false
+	}
+	_, i0 := f.at([]Term{IntLit(0)})
+	_, i1 := f.at([]Term{IntLit(1)})
+	return Sub(i1, i0).S == "1" || fx.unitStride(f)
 }
 
 func replaceIdx(f famInst, at Term) Term {
